@@ -66,6 +66,8 @@ type PropDef struct {
 	Monitors func(st *Stats) []Monitor
 	Cases    map[string]int // tier -> number of histories
 	Blocks   map[string]int // tier -> blocks per history
+	// Finish runs after the generated blocks (e.g. the settlement phase of the dispute properties)
+	Finish func(c *Chain, g *Gen, mons []Monitor)
 	// DeathIsViolation: a failing block is a violation of this property (C02); otherwise it ends the case quietly.
 	DeathIsViolation bool
 }
@@ -191,6 +193,9 @@ func RunCase(spec CaseSpec) (res CaseResult) {
 			}
 		}
 		res.AppHash = fmt.Sprintf("%x", br.AppHash)
+	}
+	if def.Finish != nil && !c.Dead {
+		def.Finish(c, g, mons)
 	}
 	return
 }
